@@ -288,6 +288,11 @@ func decide(c aCase) (*rp.Fail, verdict) {
 		// does not is an invented value
 		def := map[string]uint16{"bind": 0, "broadcast": 60000, "controller": 60000}
 		port := got.ap.Port()
+		// ... and whatever the notation (a reserved port written with leading zeros, say), an address that a role's parser
+		// returns obeys that role's port rule: the rule is about the address, not about its spelling
+		if c.Role == "bind" && port == 60000 || c.Role == "listen" && (port == 0 || port == 60000) || (c.Role == "broadcast" || c.Role == "controller") && port == 0 {
+			return rp.Failf(site+"/returns-forbidden-port", "%s(%q) = %v: a %s address may not use port %d", site, c.S, got.ap, c.Role, port), v
+		}
 		written := func(n uint64) bool {
 			// the number occurs in the text as a maximal digit run with that value (leading zeros allowed)
 			// (significant digits are counted: a run of any length that is all leading zeros plus at most 18 digits has a value)
@@ -458,7 +463,7 @@ func TestSweeps(t *testing.T) {
 		b := &bulk{t: t, n: map[string]int64{}, nt: map[string]int64{}, check: "addr"}
 		octets := []string{"0", "1", "255", "256", "01"}
 		seps := [][3]string{{".", ".", "."}, {":", ".", "."}, {".", "..", "."}, {".", ".", ""}, {".", ":", "."}, {"", ".", "."}}
-		ports := []string{"", ":", ":0", ":1", ":59999", ":60000", ":60001", ":65535", ":65536", ":080", ":123456", ":125537", ":65537", ":4295027297", ":18446744073709611617", ":0000000000000000000000001000", ":000000000000000000000000000000060001"}
+		ports := []string{"", ":", ":0", ":1", ":59999", ":60000", ":60001", ":65535", ":65536", ":080", ":123456", ":125537", ":65537", ":4295027297", ":18446744073709611617", ":0000000000000000000000001000", ":000000000000000000000000000000060001", ":060000", ":0060000", ":00", ":060001"}
 		junk := []string{"", " ", "x"}
 		idx := 0
 		stride := ev.Pick(10, 1)
